@@ -14,11 +14,12 @@
    and the parameter files of SaveParam / setParam(file).                                        *)
 EXTENDS PotFn, Json
 
-CONSTANTS C12Set, C6Set, ASet, MSet, J0Set, Ranges, PMax, SplCfgs, LamSeeds, DecCfgs, BigTab, Emit
+CONSTANTS C12Set, C6Set, ASet, MSet, J0Set, Ranges, PMax, SplCfgs, LamSeeds, DecCfgs, BigTab, Hyper, Emit
 VARIABLES c, ph
 vars == <<c, ph>>
 
-LamOf(s, n) == [k \in 1..n |-> ((k * k * 7 + s * 13 + k * s * 5) % 11) - 3]
+\* coefficient vectors of the spline scenarios; seed 99 = all coefficients exactly zero
+LamOf(s, n) == [k \in 1..n |-> IF s = 99 THEN 0 ELSE ((k * k * 7 + s * 13 + k * s * 5) % 11) - 3]
 LJ(fn, lam, mn, cut, Q, pmax, big) == [fn |-> fn, lam |-> lam, mn |-> mn, cut |-> cut, Q |-> Q, pmax |-> pmax, big |-> big]
 
 Init == /\ ph = 0
@@ -26,6 +27,8 @@ Init == /\ ph = 0
                 c = LJ("lj126", <<c12, c6, 0, 0, 0>>, rg[1], rg[2], 2, PMax, FALSE)
            \/ \E c12 \in C12Set, c6 \in C6Set, a \in ASet, m \in MSet, j0 \in J0Set, rg \in Ranges :
                 c = LJ("ljg", <<c12, c6, a, m, j0>>, rg[1], rg[2], 2, PMax, FALSE)
+           \* further parameter vectors on and around the coordinate hyperplanes: Hyper = set of <<fn, lam>>
+           \/ \E hy \in Hyper, rg \in Ranges : c = LJ(hy[1], hy[2], rg[1], rg[2], 2, PMax, FALSE)
            \* decimal lattice: DecCfgs = set of <<fn, lam, mn, cut, pmax>> with r = P/10
            \/ \E d \in DecCfgs : c = LJ(d[1], d[2], d[3], d[4], 10, d[5], FALSE)
            \* one very long table: BigTab = set of <<lam, mn, cut>> with r = P/4096
@@ -34,6 +37,13 @@ Init == /\ ph = 0
                 c = [fn |-> "cbspl", cfg |-> sc, lam |-> LamOf(s, sc.NI + 3)]
 Next == ph = 0 /\ ph' = 1 /\ UNCHANGED c
 Spec == Init /\ [][Next]_vars
+
+\* vacuity guard for the parameter lattice: every parameter takes the value exactly 0, a positive and a
+\* negative value (closed forms that special-case a zero parameter, or are only right for one sign, must meet it)
+ParamVals(k) == (CASE k = 1 -> C12Set [] k = 2 -> C6Set [] k = 3 -> ASet [] k = 4 -> MSet [] k = 5 -> J0Set)
+                \cup {hy[2][k] : hy \in {h \in Hyper : h[1] = "ljg"}}
+ASSUME \A k \in 1..5 : /\ 0 \in ParamVals(k) /\ (\E x \in ParamVals(k) : x > 0) /\ (\E x \in ParamVals(k) : x < 0)
+ASSUME 99 \in LamSeeds
 
 IsLJ == c.fn \in {"lj126", "ljg"}
 DPOf == IF c.fn = "lj126" THEN 0 ELSE 4
